@@ -249,6 +249,9 @@ fn check(ctx: &Ctx, c: &Case) -> PResult {
         ];
         for (name, v) in cands {
             let asg = g.with(&[(base, v[0]), (base + 1, v[1]), (base + 2, v[2])]);
+            if op != 5 && gadget::maybe_cross(&g, &asg, c.seed, name.len(), 30, "curve adversarial assignment")? {
+                ctx.label("adversarial assignment cross-checked with the real prover");
+            }
             ctx.add_evals(1);
             ctx.label(&format!("adversary: {name}"));
             if g.eval(&asg).is_empty() && (asg[rx], asg[ry]) != want {
@@ -257,6 +260,73 @@ fn check(ctx: &Ctx, c: &Case) -> PResult {
                     "curve-forged-sum-accepted",
                     format!("{}: '{name}' satisfies every row with a result off the group law (real: {real:?})", OPS[op as usize]),
                 ));
+            }
+        }
+    }
+    // algebraic adversary: for every selected variable-base row of the gadget
+    // whose FIRST or SECOND addend is a point the gadget itself allocated
+    // (prover-chosen), put the other solution of the row's two output
+    // equations into that slot (the equations are linear in the output but
+    // quadratic in an addend)
+    {
+        let (g0, g1) = g.op_gates(comp_op);
+        let (w0, _) = g.op_wits(comp_op);
+        let d = dusk_jubjub::EDWARDS_D;
+        for row in g0..g1.min(g.layout.rows.len().saturating_sub(1)) {
+            let r = &g.layout.rows[row];
+            if r.sel[crate::spec::Q_VAR] == F::zero() {
+                continue;
+            }
+            let nx = &g.layout.rows[row + 1];
+            let (ix1, iy1, ix2, iy2) = (r.w[0], r.w[1], r.w[2], r.w[3]);
+            let (ix3, iy3, ih) = (nx.w[0], nx.w[1], nx.w[3]);
+            let (x1, y1, x2, y2, x3, y3) = (g.wit[ix1], g.wit[iy1], g.wit[ix2], g.wit[iy2], g.wit[ix3], g.wit[iy3]);
+            // first addend prover-chosen?
+            for slot in 0..2 {
+                let (iu, iv, ou, ov) = if slot == 0 { (ix1, iy1, x2, y2) } else { (ix2, iy2, x1, y1) };
+                if iu < w0 || iv < w0 || iu == iv {
+                    continue;
+                }
+                let (u0, v0) = (g.wit[iu], g.wit[iv]);
+                // unknown (u, v), other addend (ou, ov):
+                //   u*ov' + v*ou' ... written symmetrically: the law is
+                //   x3 (1 + d u v ou ov) = u*ov + v*ou ; y3 (1 - d u v ou ov) = v*ov + u*ou
+                // y3*E1 + x3*E2 cancels the cross term: u*A + v*B = 2 x3 y3
+                let a_c = y3 * ov + x3 * ou;
+                let b_c = y3 * ou + x3 * ov;
+                let Some(b_inv) = b_c.invert() else { continue };
+                // v = (2 x3 y3 - u A)/B = m + k u
+                let m = F::from(2u64) * x3 * y3 * b_inv;
+                let k = -a_c * b_inv;
+                // E1: u ov + (m + k u) ou - x3 - x3 d ou ov u (m + k u) = 0
+                // quadratic c2 u^2 + c1 u + c0
+                let e = x3 * d * ou * ov;
+                let c2 = -e * k;
+                let c1 = ov + k * ou - e * m;
+                let Some(c2_inv) = c2.invert() else { continue };
+                // Vieta: the other root
+                let u1 = -c1 * c2_inv - u0;
+                let v1 = m + k * u1;
+                if (u1, v1) == (u0, v0) {
+                    continue;
+                }
+                // helper wire x1*y2 of this row
+                let h = if slot == 0 { u1 * y2 } else { x1 * v1 };
+                let asg = g.with(&[(iu, u1), (iv, v1), (ih, h)]);
+                ctx.add_evals(1);
+                ctx.label("adversary: second solution of an addition row for a prover-chosen addend");
+                let got = (asg[rx], asg[ry]);
+                if g.eval(&asg).is_empty() && got != want {
+                    let real = g.prove_assignment(&asg, c.seed)?;
+                    return Err(Fail::new(
+                        "curve-addend-not-unique",
+                        format!(
+                            "{}: a prover-chosen addend of a curve-addition row has a second solution; every row is satisfied and the returned point is off the group law (real prover+verifier: {real:?})",
+                            OPS[op as usize]
+                        ),
+                    ));
+                }
+                let _ = (x1, y1);
             }
         }
     }
